@@ -403,6 +403,15 @@ theorem blame_metadata_self_contained (env : Env) (henv : env.stdoutIsTerminal =
   exact ⟨BlameMetaProofs.shape_as_modelled, hprec,
     (blame_metadata_precision_on_plain_text env cw items f hf hlit hprec out h).2.2⟩
 
+/-- The same for any destination of stdout, *if* the arm table says so there too (`armsPlainWhen env`, decidable; false
+for the unchanged source with hyperlinks on a terminal — see `blame_commit_link_cut_on_terminal` —, true everywhere once
+the commit is linked after it has been padded: `notes/fix-blame-commit-link-precision.diff`, generated `linkAfterPad`). -/
+theorem blame_metadata_self_contained_where_arms_plain (env : Env) (harms : armsPlainWhen env = true)
+    (cw : Char → Nat) (items : List BlameMeta.Item) (f : Fields) (hf : FieldsOk f) (hlit : ItemsLitOk items)
+    (out : List Char) (h : formatMeta env cw items f = .ok out) : selfContained out :=
+  (blame_metadata_precision_on_plain_text env cw items f hf hlit
+    (precisionOnPlain_of_armsPlain env harms items) out h).2.2
+
 def exFields : Fields :=
   { time := ⟨"2021".toList, [.plain "2021".toList]⟩, author := ⟨"Dan Davison".toList, [.plain "Dan Davison".toList]⟩,
     commit := ⟨"ea82f2d0".toList, [.linked "https://x/ea82f2d0".toList "ea82f2d0".toList]⟩ }
@@ -422,17 +431,24 @@ example : (formatMeta { hyperlinks := true, stdoutIsTerminal := true } (fun _ =>
     some "\x1b]8;;https://x/ea82f2d0\x1b\\ea82f2d0\x1b]8;;\x1b\\".toList ∧
     selfContained "\x1b]8;;https://x/ea82f2d0\x1b\\ea82f2d0\x1b]8;;\x1b\\".toList := by decide +kernel
 
-/-- **The hypothesis is needed, and the unchanged delta violates it on a terminal** (known finding
+/-- **The hypothesis is needed, and the unchanged delta violates it on a terminal** (stated under the premise that the
+arm serving `{commit}` can carry escapes there, so that it still builds after the repair) (known finding
 `C09-blame-precision-cuts-commit-link-on-terminal`, confirmed on the real binary under a pty): with `--hyperlinks`,
 a commit URL, stdout a terminal and `--blame-format '{commit:<7.7}'`, `format_raw_line` links the commit and the
 precision cuts the string after `ESC ] 8 ; ; h t` — an OSC sequence cut in half, the rest of the row swallowed. -/
 theorem blame_commit_link_cut_on_terminal :
-    precisionOnPlain { hyperlinks := true, stdoutIsTerminal := true }
+    labelPlain { hyperlinks := true, stdoutIsTerminal := true } "commit" = false →
+    (precisionOnPlain { hyperlinks := true, stdoutIsTerminal := true }
       [{ label := some "commit", align := some .left, width := some 7, prec := some 7 }] = false ∧
     (formatMeta { hyperlinks := true, stdoutIsTerminal := true } (fun _ => 1)
       [{ label := some "commit", align := some .left, width := some 7, prec := some 7 }] exFields).toOption =
       some "\x1b]8;;ht".toList ∧
-    ¬ selfContained "\x1b]8;;ht".toList := by decide +kernel
+    ¬ selfContained "\x1b]8;;ht".toList) := by decide +kernel
+
+/-- The premise holds for the unchanged source — this is a defect of delta today, not a hypothetical — unless the source
+already links the commit after padding it (the shape of the repair). -/
+example : labelPlain { hyperlinks := true, stdoutIsTerminal := true } "commit" = false ∨
+    Generated.BlameMeta.padUse = "bind-then-link" := by decide +kernel
 
 /-- **A whole blame row is self-contained**: the `write!` of `handle_blame_line` (generated `rowPieces`: metadata —
 blanked with `measure_text_width` blanks when the key repeats —, separator prefix, line number, separator suffix, each
